@@ -65,7 +65,7 @@ Fixpoint for_loop {St R A : Type} (xs : list A) (body : A -> St -> result (St + 
 (* ------------------------------------------------------------------ *)
 (** * Strings, Python indexing and slicing *)
 
-Definition str := list N.
+Notation str := (list N).
 
 Definition zlen {A} (l : list A) : Z := Z.of_nat (length l).
 
@@ -935,11 +935,14 @@ Fixpoint join_aux (d : list seg) (skip : bool) : list jseg * bool :=
 
 Definition join_delete_insert (d : list seg) : result (list jseg) :=
   let '(l, skip) := join_aux d false in
-  if skip then Ok l
-  else match last_opt d with
-       | None => Err IndexError             (* diffs[-1] of an empty list *)
-       | Some (o, t) => Ok (l ++ [JS o t])
-       end.
+  match d with
+  | [] => Ok l                                (* if diffs and not skip_next: ... *)
+  | _ => if skip then Ok l
+         else match last_opt d with
+              | None => Err IndexError        (* diffs[-1]; unreachable: diffs is not empty here *)
+              | Some (o, t) => Ok (l ++ [JS o t])
+              end
+  end.
 
 (* ------------------------------------------------------------------ *)
 (** * Specification vocabulary (used by the statements in Properties/C16.v) *)
